@@ -728,22 +728,25 @@ fn dfs_all(ctx: &mut Ctx, cfg: &Config, cap: u64) {
 
 fn random_call(r: &mut Rng, len_hint: u64, tag: &mut u32, replica: bool, nproofs: usize) -> Call {
     if replica {
-        return match r.below(10) {
+        return match r.below(11) {
             0..=4 => Call::Apply(r.below(nproofs as u64) as usize),
             5 => Call::Get(r.below(len_hint + 1)),
             6 => Call::Has(r.below(len_hint + 1)),
             7 => Call::Info,
+            // the shared replica also serves: upgrade and block proofs to a further peer
+            8 => Call::CreateProof(if r.chance(1, 2) { Some(r.below(len_hint.max(1))) } else { None }, if r.chance(2, 3) { Some((0, 1 + r.below(len_hint.max(1)))) } else { None }),
             _ => Call::MissingNodes(r.below(len_hint + 1)),
         };
     }
     match r.below(12) {
         0..=2 => {
             *tag += 1;
-            Call::Append(*tag, 4 + r.below(9) as u32)
+            // empty blocks too: their leaves have size 0 but a hash of their own
+            Call::Append(*tag, if r.chance(1, 6) { 0 } else { 4 + r.below(9) as u32 })
         }
         3 => {
             let k = r.below(4) as u32;
-            let b = (0..k).map(|i| (*tag + 1 + i, 4 + r.below(6) as u32)).collect();
+            let b = (0..k).map(|i| (*tag + 1 + i, if r.chance(1, 6) { 0 } else { 4 + r.below(6) as u32 })).collect();
             *tag += k;
             Call::Batch(b)
         }
